@@ -17,7 +17,7 @@
    property is otherwise decided on every run by the four-way correspondence (code optimised /
    unoptimised through the hook, model optimised / unoptimised). *)
 From RX Require Import Base.Prelude Base.InvList Model.Case Model.Op Model.Engine Model.Matcher Model.Compiler
-     Model.Api Proofs.FilterFacts Proofs.LeafFacts Proofs.EngineFacts Proofs.ShortcutFacts Proofs.FragmentSpec Proofs.FixedFacts Proofs.DisjointFacts Proofs.UnambFacts.
+     Model.Api Proofs.FilterFacts Proofs.LeafFacts Proofs.EngineFacts Proofs.ShortcutFacts Proofs.FragmentSpec Proofs.FixedFacts Proofs.DisjointFacts Proofs.UnambFacts Tables.Consts Proofs.AmbigFacts.
 
 Theorem C08_prefix_filter_sound_partial :
   forall input ci multi hb pre rest path j s,
@@ -91,6 +91,36 @@ Theorem C08_unambiguous_replacement_partial :
       = Rop input false multi (OSeq (OUnamb c mn mx :: nxt :: rest)) p.
 Proof. intros input multi hb K Hs. exact (unambiguous_replacement input multi hb K Hs). Qed.
 
+(* what the disjointness decision rests on when the term after a repeat is not a leaf: the first-character
+   set and the empty-match classification of sequences, alternations and groups are sound (case-sensitive
+   matching, terms without repetition): a match is empty or starts inside the set; a term that matches the
+   empty string somewhere is not classified "never" *)
+Theorem C08_first_character_set_sound_partial :
+  forall input multi hb K,
+    (forall p ch, nth_error input p = Some ch -> is_scalar ch = true) ->
+    forall o, foll o -> simple input false multi hb K o ->
+      forall p q, In q (Rop input false multi o p) ->
+        q = p \/ exists ch, nth_error input p = Some ch /\ mem (icc false o) ch = true.
+Proof. exact icc_sound. Qed.
+
+Theorem C08_matches_empty_string_sound_partial :
+  forall input multi hb K o, foll o -> simple input false multi hb K o ->
+    forall p, In p (Rop input false multi o p) -> mes o <> zls_never.
+Proof. exact mes_sound. Qed.
+
+(* ... so the rewriting step is results-preserving with such a follower too *)
+Theorem C08_unambiguous_replacement_sequence_follower_partial :
+  forall input multi hb K,
+    (forall p ch, nth_error input p = Some ch -> is_scalar ch = true) ->
+    forall c mn mx nxt rest (greedy : bool) p,
+      single c -> foll nxt -> simple input false multi hb K nxt ->
+      match nxt with OEnd | OBol | OEol => False | _ => True end ->
+      no_ambiguity c nxt false (negb greedy) = true ->
+      (0 < mx)%N -> (mn <= mx)%N -> (N.of_nat (length input) < umax)%N -> p <= length input ->
+      Rop input false multi (OSeq ((if greedy then OGFixed c mn mx 1 else ORFixed c mn mx 1) :: nxt :: rest)) p
+      = Rop input false multi (OSeq (OUnamb c mn mx :: nxt :: rest)) p.
+Proof. exact unambiguous_replacement_group. Qed.
+
 Print Assumptions C08_prefix_filter_sound_partial.
 Print Assumptions C08_first_class_filter_sound_partial.
 Print Assumptions C08_literal_same_tree_partial.
@@ -99,3 +129,6 @@ Print Assumptions C08_shortcuts_pure_class_first_partial.
 Print Assumptions C08_unambiguous_repeat_same_results_partial.
 Print Assumptions C08_is_disjoint_sound.
 Print Assumptions C08_unambiguous_replacement_partial.
+Print Assumptions C08_first_character_set_sound_partial.
+Print Assumptions C08_matches_empty_string_sound_partial.
+Print Assumptions C08_unambiguous_replacement_sequence_follower_partial.
